@@ -307,6 +307,54 @@ func run(e *core.Env) {
 				}
 			} else {
 				// Stop while the network keeps delivering and the peers keep pinging.
+				redial := false
+				linksBefore := map[string]bool{}
+				pairsBefore := len(cn.Pairs())
+				if tp.Chance(1, 3) {
+					// ... and right after a connection broke: a peer that lost its only link
+					// dials again at once, so that a handshake with the stopping router is under
+					// way while its listeners and links are being closed
+					var live []*simnet.ConnPair
+					for _, p := range cn.Pairs() {
+						if !p.A.IsClosed() && !p.B.IsClosed() {
+							live = append(live, p)
+						}
+					}
+					if len(live) > 0 {
+						p := live[tp.Intn(len(live))]
+						if tp.Chance(1, 2) {
+							p.A.FailReads(simnet.ErrSimIO)
+						} else {
+							cn.DeliverBytes(p.B, nil, true)
+						}
+						e.Fault("link_break")
+						// (long enough for the new dial to reach the listener, and only a few
+						// deliveries: the stop then falls into the handshake)
+						for it := 0; it < 3; it++ {
+							for steps := 0; steps < 60; steps++ {
+								var next *simnet.Record
+								for _, r := range cn.Heads() {
+									if r.Conn.ID >= pairsBefore && r.Seq > 1 {
+										continue // (a new connection gets no further than its first records)
+									}
+									next = r
+									break
+								}
+								if next == nil {
+									break
+								}
+								cn.Deliver(next)
+							}
+							time.Sleep(time.Duration(10+tp.Intn(40)) * time.Millisecond)
+							simnet.Wait()
+						}
+						e.Probe("stopped_while_a_peer_redials")
+						redial = true
+						for _, l := range x.in.Peering().GetLinks() {
+							linksBefore[l.RemoteAddr().String()] = true
+						}
+					}
+				}
 				done := make(chan struct{})
 				var pan any
 				go func() {
@@ -320,7 +368,58 @@ func run(e *core.Env) {
 				// Stop itself gives each module's workers up to a minute; six
 				// simulated minutes are far beyond any honest stop.
 				deadline := time.Now().Add(6 * time.Minute)
+				stalledPeers := false
 				for k := 0; !finished && time.Now().Before(deadline); k++ {
+					if redial && !stalledPeers {
+						// The connections dialled since the break are held up after their first
+						// records (the listener has accepted them, the handshake has begun) until
+						// the stopping router's peering module has been told to stop; then they go
+						// on. A link that is registered now was not there when the stop looked at
+						// the links - and from here on the peers stall: nothing is read or written
+						// by them any more, the connections stay open, no keep-alive will end
+						// them. The stop has to get by on its own.
+						down := x.in.Peering().Manager().IsDone()
+						for steps := 0; steps < 60; steps++ {
+							var next *simnet.Record
+							for _, r := range cn.Heads() {
+								if r.Conn.ID >= pairsBefore && !down && r.Seq > 1 {
+									continue
+								}
+								next = r
+								break
+							}
+							if next == nil {
+								break
+							}
+							cn.Deliver(next)
+						}
+						time.Sleep(time.Duration(5+tp.Intn(40)) * time.Millisecond)
+						simnet.Wait()
+						if down {
+							for _, l := range x.in.Peering().GetLinks() {
+								if !linksBefore[l.RemoteAddr().String()] && !l.IsClosing() {
+									stalledPeers = true
+									e.Probe("link_registered_after_the_stop_looked_then_peers_stall")
+								}
+							}
+						}
+						select {
+						case <-done:
+							finished = true
+						default:
+						}
+						continue
+					}
+					if stalledPeers {
+						time.Sleep(5 * time.Second)
+						simnet.Wait()
+						select {
+						case <-done:
+							finished = true
+						default:
+						}
+						continue
+					}
 					if k < 200 {
 						for _, y := range running {
 							if y != x && y.up && tp.Chance(1, 3) {
